@@ -20,6 +20,9 @@ const (
 	vKindCompressed        // compressed-timestamp header record
 	vKindLap               // lap message
 	vKindActivity          // activity message with timestamp and local_timestamp
+	vKindCompUnknown       // compressed-timestamp header on the unknown message (local 2)
+	vKindCompFileId        // compressed-timestamp header on a message without timestamp field (file_id, local 0)
+	vKindDevField2         // record with one 3-byte developer field (local 7, defined after local 4)
 	vNumKinds
 )
 
@@ -49,7 +52,8 @@ func vGenStream(kinds []int, hdrCRC bool) *vStreamInfo {
 	var body bytes.Buffer
 	// local 0: file_id: type(enum) manufacturer(uint16)
 	body.Write([]byte{0x40, 0, 0, 0, 0, 2, 0, 1, 0x00, 1, 2, 0x84})
-	body.Write([]byte{0x00, 4, vByte(), vByte()})
+	manu := []byte{vByte(), vByte()}
+	body.Write([]byte{0x00, 4, manu[0], manu[1]})
 	s.fileIDEnd = s.hdr + body.Len()
 	// an unknown message number and an unlisted record field number
 	s.unkMsgNum = MesgNum(0xFF00 | uint16(vByte()&0x7F))
@@ -61,12 +65,14 @@ func vGenStream(kinds []int, hdrCRC bool) *vStreamInfo {
 	body.Write([]byte{0x42, 0, 0, byte(s.unkMsgNum), byte(s.unkMsgNum >> 8), 1, 0, 2, 0x84})
 	// local 3: record, big-endian: timestamp, unlisted field (3 bytes), heart_rate
 	body.Write([]byte{0x43, 0, 1, 0, 20, 3, 253, 4, 0x86, s.unkFldNum, 3, 0x0D, 3, 1, 0x02})
-	// local 4 (with developer data): record: heart_rate + one developer field of 2 bytes
-	body.Write([]byte{0x64, 0, 0, 20, 0, 1, 3, 1, 0x02, 1, 0, 2, 0})
+	// local 4 (with developer data): record: heart_rate + two developer fields of 2 and 1 bytes
+	body.Write([]byte{0x64, 0, 0, 20, 0, 1, 3, 1, 0x02, 2, 0, 2, 0, 1, 1, 0})
 	// local 5: lap: timestamp, total_elapsed_time(7,uint32)
 	body.Write([]byte{0x45, 0, 0, 19, 0, 2, 253, 4, 0x86, 7, 4, 0x86})
 	// local 6: activity: timestamp, local_timestamp(5,uint32)
 	body.Write([]byte{0x46, 0, 0, 34, 0, 2, 253, 4, 0x86, 5, 4, 0x86})
+	// local 7 (with developer data, defined after local 4): record: heart_rate + one developer field of 3 bytes
+	body.Write([]byte{0x67, 0, 0, 20, 0, 1, 3, 1, 0x02, 1, 5, 3, 0})
 	for _, k := range kinds {
 		switch k {
 		case vKindRecord:
@@ -80,8 +86,17 @@ func vGenStream(kinds []int, hdrCRC bool) *vStreamInfo {
 			s.nRecords++
 			s.nUnkFld++
 		case vKindDevField:
-			body.Write([]byte{0x04, vByte(), vByte(), vByte()})
+			body.Write([]byte{0x04, vByte(), vByte(), vByte(), vByte()})
 			s.nRecords++
+		case vKindDevField2:
+			body.Write([]byte{0x07, vByte(), vByte(), vByte(), vByte()})
+			s.nRecords++
+		case vKindCompUnknown:
+			body.Write([]byte{0x80 | 2<<5 | vByte()&0x1F, vByte(), vByte()})
+			s.nUnkMsg++
+		case vKindCompFileId:
+			// a second file_id record (same content) under a compressed header
+			body.Write([]byte{0x80 | 0<<5 | vByte()&0x1F, 4, manu[0], manu[1]})
 		case vKindCompressed:
 			// local 1 is 0..3-addressable: compressed header, local type 1, offset arbitrary
 			body.Write([]byte{0x80 | 1<<5 | vByte()&0x1F, vByte(), vByte(), vByte(), 0x20, vByte()})
